@@ -42,6 +42,20 @@ const (
 	catalogShapeMapBody                       // one or more hydraide:"FieldName" body fields
 )
 
+// parseHydraideTag splits a `hydraide` struct tag into its head (the text
+// before the first comma) and reports whether the `omitempty` option follows.
+// Every place that interprets a Catalog tag goes through this function, so the
+// encoder, the decoder and the shape detection always agree on what a tag means.
+func parseHydraideTag(raw string) (head string, omitempty bool) {
+	parts := strings.Split(raw, ",")
+	for _, p := range parts[1:] {
+		if strings.TrimSpace(p) == tagOmitempty {
+			omitempty = true
+		}
+	}
+	return parts[0], omitempty
+}
+
 // inspectCatalogModel walks a struct type once and returns its shape +
 // the list of map-body fields (only populated for catalogShapeMapBody).
 //
@@ -60,8 +74,7 @@ func inspectCatalogModel(t reflect.Type) (catalogShape, []mapBodyField, error) {
 		if !ok {
 			continue
 		}
-		parts := strings.Split(raw, ",")
-		head := parts[0]
+		head, omitempty := parseHydraideTag(raw)
 		if head == "" {
 			continue
 		}
@@ -73,12 +86,6 @@ func inspectCatalogModel(t reflect.Type) (catalogShape, []mapBodyField, error) {
 			continue
 		}
 		// Non-reserved head → map-body field. Tag value is the wire key.
-		omitempty := false
-		for _, p := range parts[1:] {
-			if strings.TrimSpace(p) == tagOmitempty {
-				omitempty = true
-			}
-		}
 		bodyFields = append(bodyFields, mapBodyField{
 			Name:      head,
 			Index:     i,
